@@ -34,7 +34,8 @@ def cases(ctx, quick):
     write_ndjson(vf, vecs)
     ctx.run_vh(["rewrite", "-in", vf, "-out", cf])
     for c in read_ndjson(cf):
-        out.append(dict(id=c["id"], patch=c["patch"], src=c["src"], api_out=c["got"], api_err=c["err"]))
+        # ("outparse:" is the harness noting that what Apply RETURNED does not parse - not an error of the API)
+        out.append(dict(id=c["id"], patch=c["patch"], src=c["src"], api_out=c["got"], api_err="" if c["err"].startswith("outparse:") else c["err"]))
     # a change that matches but rewrites to the same text: what remains is formatting and import processing,
     # which every mode and the library must do alike
     ident = "@@\nvar x expression\n@@\n-foo(x)\n+foo(x)\n"
